@@ -698,6 +698,9 @@ func (fv *FV) callByContract(st *State, fc *FuncContract, pc *PkgContracts, osig
 			env.names[n] = args[i]
 		}
 	}
+	if fc.Seq != "" && len(args) == osig.Params().Len()+1 {
+		env.names[fc.Seq] = args[len(args)-1] // the callback of the range statement that invokes the returned function
+	}
 	// ghost arguments from the caller's contract
 	if len(fc.Ghost) > 0 {
 		var ga map[string]SExpr
@@ -904,6 +907,23 @@ func (fv *FV) modTargets(env *Env, list []SExpr) []modTarget {
 	return out
 }
 
+// ownedBase is the backing array of the slice s named by the modifies target e. When e is a field p.f of a
+// possibly nil object, the target is empty for p == nil (base 0, which havoc and the frame check skip): the field
+// array's entry for the nil object is an arbitrary value, and "the backing array of nil.f" must not stand for some
+// unrelated allocated array.
+func (fv *FV) ownedBase(env *Env, e SExpr, s Term) string {
+	base := "(sbase " + s.S + ")"
+	if f, ok := e.(*SField); ok {
+		p := fv.spec(env, f.X)
+		if p.Sort == sInt {
+			if _, isPtr := p.T.Underlying().(*types.Pointer); isPtr {
+				return ite(eq(p.S, "0"), "0", base)
+			}
+		}
+	}
+	return base
+}
+
 func (fv *FV) modTarget(env *Env, e SExpr) []modTarget {
 	switch x := e.(type) {
 	case *SCall:
@@ -924,7 +944,7 @@ func (fv *FV) modTarget(env *Env, e SExpr) []modTarget {
 				fv.sfail("elems() of a non-slice")
 			}
 			key, _ := fv.elemComp(et)
-			return []modTarget{{key: key, ref: "(sbase " + s.S + ")", lo: "(soff " + s.S + ")", hi: "(+ (soff " + s.S + ") (slen " + s.S + "))"}}
+			return []modTarget{{key: key, ref: fv.ownedBase(env, x.Args[0], s), lo: "(soff " + s.S + ")", hi: "(+ (soff " + s.S + ") (slen " + s.S + "))"}}
 		case "backing":
 			s := fv.spec(env, x.Args[0])
 			et := elemType(s.T)
@@ -932,7 +952,7 @@ func (fv *FV) modTarget(env *Env, e SExpr) []modTarget {
 				fv.sfail("backing() of a non-slice")
 			}
 			key, _ := fv.elemComp(et)
-			return []modTarget{{key: key, ref: "(sbase " + s.S + ")"}}
+			return []modTarget{{key: key, ref: fv.ownedBase(env, x.Args[0], s)}}
 		case "fields":
 			p := fv.spec(env, x.Args[0])
 			pt, ok := p.T.Underlying().(*types.Pointer)
@@ -1037,9 +1057,13 @@ func (fv *FV) havoc(st *State, targets []modTarget) {
 			}
 			continue
 		}
-		_, es := arraySorts(sort)
+		is, es := arraySorts(sort)
 		n := fv.fresh("h."+t.key, es)
 		cur := fv.heapGet(st, t.key)
+		if is == sInt && (strings.HasPrefix(t.key, "F:") || strings.HasPrefix(t.key, "E:")) && t.ref != "0" {
+			// nothing of the nil object (and no backing array of a nil slice) is ever written
+			fv.define(st, implies(eq(t.ref, "0"), eq(n, sel(cur, t.ref))))
+		}
 		fv.heapSet(st, t.key, sto(cur, t.ref, n))
 		// NOTE: for a windowed target (elems(s)) the callee is *checked* to write only inside the window, but the
 		// caller-side havoc is the whole backing array: the quantified "outside the window unchanged" fact made
